@@ -1,10 +1,13 @@
 #!/bin/bash
-# usage: negtry.sh <patch file> CNN...  : applies a (behaviour-preserving) patch to /repo, runs checks with /tmp/akv (or bin), reverts
+# usage: negtry.sh <patch file> CNN...  : applies a (behaviour-preserving) patch to a scratch worktree (/tmp/trywt, never
+# /repo itself), runs checks with /tmp/akv (or bin), reverts
 export GOFLAGS=-mod=mod GOPROXY=off GOSUMDB=off GOTOOLCHAIN=local; unset GOWORK
 patch=$(readlink -f $1); shift
 bin=/tmp/akv; [ -x $bin ] || bin=/verif/bin/akverif
-git -C /repo apply $patch || exit 3
+wt=/tmp/trywt; [ -d $wt ] || git -C /repo worktree add -q --detach $wt HEAD || exit 3
+git -C $wt checkout -q -- . ; git -C $wt apply $patch || exit 3
+mkdir -p /tmp/akvhome/evidence; cp /verif/known_findings.json /tmp/akvhome/
 for c in "$@"; do
-  AKVERIF_HOME=/tmp/akvhome $bin check $c 2>&1 | grep -v "^  ok" | tail -${TAILN:-4} | cut -c1-${CUTN:-500}
+  AKVERIF_REPO=$wt AKVERIF_HOME=/tmp/akvhome $bin check $c quick 2>&1 | grep -v "^  ok" | tail -${TAILN:-4} | cut -c1-${CUTN:-500}
 done
-git -C /repo checkout -- .
+git -C $wt checkout -q -- .
